@@ -56,7 +56,9 @@ RULE = (
     "flatten_sns_names, def_geo1/def_geo2 (valid sets in every argument form AND the same single faults, incl. DataFrame "
     "directions with renamed / re-ordered row labels and mapping / sign frames labelled in another order), dfphi_map_func: same exception class or the same tables cell by cell "
     "(numbers exactly; mapped values and displacements at 1e-12). oracle: the statement with plain dict look-ups on the "
-    "generating spec, plus Agg artists of plot_mode_geo1 / plot_mode_geo2_mpl. distinct = distinct (function, shape/"
+    "generating spec, plus Agg artists of plot_mode_geo1 / plot_mode_geo2_mpl; every function is also used twice on the "
+    "caller's own (un-copied) tables, geometry 1 and 2 are defined from shared tables on two setup objects, and the caller's "
+    "tables / arrays are monitored for modification. distinct = distinct (function, shape/"
     "corruption/form) classes"
 )
 EXTRA_TRUSTED = [
@@ -718,11 +720,34 @@ def _arrarg(x):
     return {"t": arr_json(x), "arr": True}
 
 
-def call_defgeo(S, which, args, ref_ind):
-    s = S()
+def _snap(objs):
+    """deep copies of the tables / arrays / lists a caller hands over (to see whether a call changed them)"""
+    return {k: copy.deepcopy(v) for k, v in objs.items() if isinstance(v, (pd.DataFrame, np.ndarray, list))}
+
+
+def _same_obj(a, b):
+    if isinstance(a, pd.DataFrame):
+        return (isinstance(b, pd.DataFrame) and a.shape == b.shape and list(a.index) == list(b.index)
+                and list(a.columns) == list(b.columns) and a.equals(b))
+    if isinstance(a, np.ndarray):
+        if not isinstance(b, np.ndarray) or a.shape != b.shape or a.dtype != b.dtype:
+            return False
+        return bool(np.array_equal(a, b, equal_nan=True)) if a.dtype.kind in "fc" else bool((a == b).all())
+    return type(a) is type(b) and a == b
+
+
+def _modified(objs, snap):
+    """names of the caller's objects that are no longer what they were"""
+    return sorted(k for k, v in snap.items() if not _same_obj(objs[k], v))
+
+
+def call_defgeo(S, which, args, ref_ind, share=False, obj=None):
+    """def_geo1 / def_geo2 on a new setup object (or on `obj`); with `share` the caller's own
+    argument objects are handed over (as a user does), else private copies"""
+    s = S() if obj is None else obj
     if ref_ind is not None:
         s.ref_ind = ref_ind
-    a = {k: (copy.deepcopy(v)) for k, v in args.items()}
+    a = dict(args) if share else {k: (copy.deepcopy(v)) for k, v in args.items()}
     if which == 1:
         s.def_geo1(**a)
         g = s.geo1
@@ -806,10 +831,15 @@ def corr_geo(ctx, gen, which):
             fd = build(sp)
             inp = {"fd": fd_json(fd), "ref_ind": sp["ref_ind"]}
             model = ctx.model(op, **inp)
-            res = run(fn, copy.deepcopy(fd), ref_ind=sp["ref_ind"])
+            # the dictionary is the callee's to fill in, the tables are the caller's: the same
+            # tables are checked twice (the model is a pure function of them)
+            res = run(fn, dict(fd), ref_ind=sp["ref_ind"])
             ok = cmpf(model, res)
             ctx.corr(f"check_on_geo{which}", ok, inp, model, summarize(res),
                      (tag, len(sp["flat"]), sp["ref_ind"] is None, tuple(sorted(sp["opt"])), model.get("err", "ok")))
+            res2 = run(fn, dict(fd), ref_ind=sp["ref_ind"])
+            ctx.corr(f"check_on_geo{which}[2nd call, same tables]", cmpf(model, res2) and fd_json(fd) == inp["fd"], inp, model,
+                     summarize(res2), ("again", tag, model.get("err", "ok")))
             ctx.count(f"geo{which}_{tag}_{model.get('err', 'ok')}")
         if it == 0:
             ctx.sample({"geo": which, "names": spec["flat"], "ref_ind": spec["ref_ind"], "sheets": list(build(spec))})
@@ -857,9 +887,13 @@ def corr_defgeo(ctx):
                        sign=_arrarg(args["sens_sign"]), lines=_arrarg(args["sens_lines"]), surf=_arrarg(args["sens_surf"]),
                        bgNodes=_arrarg(args["bg_nodes"]), bgLines=_arrarg(args["bg_lines"]), bgSurf=_arrarg(args["bg_surf"]))
         model = ctx.model(f"c19_defgeo{which}", **inp)
-        res = run(lambda: call_defgeo(S, which, args, spec["ref_ind"])[1])
+        snap = _snap(args)
+        res = run(lambda: call_defgeo(S, which, args, spec["ref_ind"], share=True)[1])
         ok = (cmp_geo1 if which == 1 else cmp_geo2)(model, res)
         ctx.corr(f"def_geo{which}", ok, inp, model, summarize(res), (tag, form, arrays, len(spec["flat"]), model.get("err", "ok")))
+        res2 = run(lambda: call_defgeo(S, which, args, spec["ref_ind"], share=True)[1])  # another object, the same arguments
+        ctx.corr(f"def_geo{which}[2nd object, same arguments]", (cmp_geo1 if which == 1 else cmp_geo2)(model, res2) and not _modified(args, snap),
+                 inp, model, summarize(res2), ("again", tag, form, arrays, model.get("err", "ok")))
         ctx.count(f"defgeo{which}_{form}_{'arrays' if arrays else 'frames'}")
         ctx.count(f"defgeo{which}_{tag}_{model.get('err', 'ok')}")
 
@@ -910,7 +944,12 @@ def corr_mapphi(ctx, gen):
                "cstr": None if cstr is None else tbl_json(cstr),
                "coord": tbl_json(pts)["cells"], "sign": tbl_json(sign)["cells"]}
         model = ctx.model("c19_mapphi", **inp)
-        res = run(gen.dfphi_map_func, np.array(phi), list(names), smap.copy(), cstrn=None if cstr is None else cstr.copy())
+        margs = {"phi": np.array(phi), "names": list(names), "smap": smap, "cstr": cstr}
+        msnap = _snap(margs)
+        run(gen.dfphi_map_func, margs["phi"], margs["names"], smap, cstrn=cstr)
+        res = run(gen.dfphi_map_func, margs["phi"], margs["names"], smap, cstrn=cstr)  # second use of the same objects
+        if _modified(margs, msnap):
+            res = (False, "inputs modified: " + ",".join(_modified(margs, msnap)))
         if "err" in model:
             ok = err_match(model, res)
         elif not res[0]:
@@ -1091,6 +1130,19 @@ def oracle_case(ctx, kind, spec, extra=None):
         j = judge(spec, out)
         if j:
             ctx.violation(f"geo{which}-{j}", f"check_on_geo{which}: returned geometry differs from the statement ({j})", inp, observed=summarize((True, out)))
+            return
+        # the same tables define the same geometry again (a geometry is a function of the tables) and stay as they were
+        fd2 = build(spec)
+        snap = _snap(fd2)
+        outs = [run(fn, dict(fd2), ref_ind=spec["ref_ind"]) for _ in range(2)]
+        for n, (ok, out) in enumerate(outs):
+            j = (judge(spec, out) if ok else f"raises-{out}")
+            if j:
+                ctx.violation(f"geo{which}-call{n + 1}-same-tables-{j}", f"check_on_geo{which}: call {n + 1} on the same tables does not give the geometry of the statement ({j})",
+                              inp, observed=summarize((ok, out)))
+                return
+        if _modified(fd2, snap):
+            ctx.violation(f"geo{which}-input-modified", f"check_on_geo{which} modifies the caller's tables {_modified(fd2, snap)}", inp, observed=_modified(fd2, snap))
     elif kind == "fault":
         ok, out = run(fn, build(spec), ref_ind=spec["ref_ind"])
         if ok or out != "ValueError":
@@ -1113,6 +1165,51 @@ def oracle_case(ctx, kind, spec, extra=None):
         j = judge(spec, out)
         if j:
             ctx.violation(f"def_geo{which}-{j}", f"def_geo{which}: geometry differs from the statement ({j})", inp, observed=summarize((True, out)))
+            return
+        # the caller's own objects, used to define the geometry, then to re-define it on the same setup
+        snap = _snap(args)
+        ok, so = run(lambda: call_defgeo(S, which, args, spec["ref_ind"], share=True))
+        ok2, so2 = run(lambda: call_defgeo(S, which, args, spec["ref_ind"], share=True, obj=so[0])) if ok else (False, so)
+        for n, (k, o) in enumerate(((ok, so), (ok2, so2))):
+            j = (judge(spec, o[1]) if k else f"raises-{o}")
+            if j:
+                ctx.violation(f"def_geo{which}-redefine{n}-{j}", f"def_geo{which}: defining the geometry {'again ' if n else ''}from the caller's own tables does not give the geometry of the statement ({j})",
+                              inp, observed=summarize((k, o[1] if k else o)))
+                return
+        if _modified(args, snap):
+            ctx.violation(f"def_geo{which}-input-modified", f"def_geo{which} modifies the caller's arguments {_modified(args, snap)}", inp, observed=_modified(args, snap))
+    elif kind == "reuse":
+        # one session: both geometries of one structure from the same tables (shared line / background
+        # tables), a geometry re-defined, a second setup object
+        S = _setup_cls()
+        spec2 = extra["spec2"]
+        form, arrays = extra["form"], extra["arrays"]
+        a1 = defgeo1_args(spec, form, arrays)
+        a2 = defgeo2_args(spec2, "table", arrays)
+        for k in ("sens_lines", "bg_nodes", "bg_lines", "bg_surf"):
+            a2[k] = a1[k]  # the very same objects
+        allargs = {**{"1." + k: v for k, v in a1.items()}, **{"2." + k: v for k, v in a2.items()}}
+        snap = _snap(allargs)
+        A, B = S(), S()
+        steps = [("geo1-first", 1, A), ("geo2-after-geo1", 2, A), ("geo1-again", 1, A), ("geo2-other-object", 2, B), ("geo1-other-object", 1, B)]
+        for name, w, obj in steps:
+            if obj is B and name == "geo2-other-object" and (B.geo1 is not None or B.geo2 is not None):
+                ctx.violation("reuse-fresh-object-has-geometry", "a new setup object already carries the geometry defined on another object", inp)
+                return
+            sp, ar = (spec, a1) if w == 1 else (spec2, a2)
+            ok, so = run(lambda: call_defgeo(S, w, ar, sp["ref_ind"], share=True, obj=obj))
+            j = ((judge_geo1 if w == 1 else judge_geo2)(sp, so[1]) if ok else f"raises-{so}")
+            if j:
+                ctx.violation(f"reuse-{name}-{j}", f"def_geo{w} ({name}; tables shared between the calls of one session): geometry differs from the statement ({j})",
+                              inp, observed=summarize((ok, so[1] if ok else so)))
+                return
+        g = A.geo1
+        j = judge_geo1(spec, (g.sens_names, g.sens_coord, g.sens_dir, g.sens_lines, g.bg_nodes, g.bg_lines, g.bg_surf))
+        if j:
+            ctx.violation(f"reuse-geo1-kept-{j}", "a defined geometry changed when other geometries were defined from the same tables", inp)
+            return
+        if _modified(allargs, snap):
+            ctx.violation("reuse-input-modified", f"def_geo1/def_geo2 modify the caller's arguments {_modified(allargs, snap)}", inp, observed=_modified(allargs, snap))
     elif kind == "defgeo_fault":
         S = _setup_cls()
         form, arrays = extra["form"], extra["arrays"]
@@ -1133,7 +1230,13 @@ def oracle_case(ctx, kind, spec, extra=None):
         if not ok:
             ctx.violation(exc_sig(out, f"geo2-valid-rejected-{out}"), f"check_on_geo2 raises {out} on a well-formed table set (sheets present: {sorted(fd)})", inp, observed=out)
             return
-        ok, m = run(gen.dfphi_map_func, np.array(phi), out[0], out[2], cstrn=out[3])
+        margs = {"phi": np.array(phi), "names": out[0], "smap": out[2], "cstr": out[3]}
+        msnap = _snap(margs)
+        run(gen.dfphi_map_func, margs["phi"], out[0], out[2], cstrn=out[3])
+        ok, m = run(gen.dfphi_map_func, margs["phi"], out[0], out[2], cstrn=out[3])  # second use of the same geometry
+        if _modified(margs, msnap):
+            ctx.violation("map-input-modified", f"dfphi_map_func modifies its arguments {_modified(margs, msnap)}", inp, observed=_modified(margs, msnap))
+            return
         want = expect_map(spec, phi)
         if not ok:
             ctx.violation(f"map-raises-{m}", f"dfphi_map_func raises {m} on a checked geometry", inp, observed=m)
@@ -1182,6 +1285,13 @@ def oracle_case(ctx, kind, spec, extra=None):
                                   observed=off.tolist(), expected=want.tolist())
         finally:
             plt.close("all")
+        # drawing does not change the geometry
+        g = s.geo1 if which == 1 else s.geo2
+        out = ((g.sens_names, g.sens_coord, g.sens_dir, g.sens_lines, g.bg_nodes, g.bg_lines, g.bg_surf) if which == 1 else
+               (g.sens_names, g.pts_coord, g.sens_map, g.cstrn, g.sens_sign, g.sens_lines, g.sens_surf, g.bg_nodes, g.bg_lines, g.bg_surf))
+        j = judge(spec, out)
+        if j:
+            ctx.violation(f"plot-geo{which}-geometry-changed-{j}", f"plot_mode_geo{which}: the geometry is no longer the defined one after drawing ({j})", inp)
 
 
 def oracle(ctx, scale):
@@ -1241,6 +1351,21 @@ def oracle(ctx, scale):
             oracle_case(ctx, "defgeo_fault", cs, {"form": form, "arrays": arrays})
             ctx.nontrivial.add(("oracle-defgeo-fault", which, tg, arrays))
             ctx.count(f"oracle_defgeo{which}_fault_{tg}")
+    # (2b) one session: geometry 1 and geometry 2 of one structure from shared tables, re-definition, two setups
+    for it in range(ctx.n(16, 200) * scale):
+        spec = gen_geo1(rng, multi=(it % 3 == 0))
+        spec2 = gen_geo2(rng, multi=False)
+        nn = max(1, min(len(spec["flat"]), spec2["P"]))
+        if it % 4 != 3:  # mostly with every shared table present
+            nodes, m = gen_nodes(rng)
+            spec["opt"].update({"sensors lines": gen_idx_sheet(rng, nn, 2), "BG nodes": nodes,
+                                "BG lines": gen_idx_sheet(rng, m, 2), "BG surfaces": gen_idx_sheet(rng, m, 3)})
+        spec2["opt"] = {**{k: v for k, v in spec2["opt"].items() if k == "sensors surfaces"},
+                        **{k: v for k, v in spec["opt"].items() if k in ("sensors lines", "BG nodes", "BG lines", "BG surfaces")}}
+        form = [f for f in FORMS if names_form(spec, f) is not None][it % 2]
+        oracle_case(ctx, "reuse", spec, {"spec2": spec_json(spec2), "form": form, "arrays": it % 4 == 1})
+        ctx.nontrivial.add(("oracle-reuse", form, it % 4 == 1, tuple(sorted(spec["opt"]))))
+        ctx.count("oracle_reuse_" + ("arrays" if it % 4 == 1 else "frames"))
     # (3) mapping of mode shapes
     for it in range(ctx.n(60, 900) * scale):
         spec, phi = gen_mapcase(rng)
